@@ -260,11 +260,16 @@ pub(crate) mod native_io {
         }
         ret(raw(n, a1, a2, a3, a4, a5, a6)) as libc::c_long
     }
+    thread_local! {
+        /// only system calls made by the thread that asked for the trace are recorded (other tests of
+        /// the same process may be doing I/O at the same time)
+        pub static LOG_HERE: std::cell::Cell<bool> = std::cell::Cell::new(false);
+    }
     fn note(op: &'static str, fd: i32) {
         if op != "fsync" {
             mutation();
         }
-        if LOGGING.load(Ordering::SeqCst) {
+        if LOGGING.load(Ordering::SeqCst) && LOG_HERE.with(|l| l.get()) {
             let name = std::fs::read_link(format!("/proc/self/fd/{}", fd))
                 .ok()
                 .and_then(|p| p.file_name().map(|n| n.to_string_lossy().into_owned()))
@@ -426,9 +431,11 @@ fn native_enum_recover_postcondition() {
             let ht_fd = std::fs::OpenOptions::new().read(true).write(true).open(&ht_path).unwrap();
             let wal_fd = std::fs::OpenOptions::new().read(true).write(true).open(&wal_path).unwrap();
             native_io::TRACE.lock().unwrap().clear();
+            native_io::LOG_HERE.with(|l| l.set(true));
             native_io::LOGGING.store(true, std::sync::atomic::Ordering::SeqCst);
             let db = DB::open(41, BUCKETS, seed, crate::io::PagePool::new(), ht_fd, wal_fd).unwrap();
             native_io::LOGGING.store(false, std::sync::atomic::Ordering::SeqCst);
+            native_io::LOG_HERE.with(|l| l.set(false));
             let trace = native_io::TRACE.lock().unwrap().clone();
             let what = format!("wal entries {:?}, same sequence number: {}", seq.iter().map(|&e| alpha[e].clone()).collect::<Vec<_>>(), same_seqn);
 
@@ -616,6 +623,85 @@ fn native_enum_prepare_sync_redo_equivalence() {
         cases += 1;
     }
     assert!(cases == 32);
+}
+
+// ---- every stored page is reachable through its probe sequence, exactly the stored ones -----------
+/// Bounded native enumeration (not a proof) on the real DB::prepare_sync + PageLoader over real
+/// files: an 8-bucket hash table (so probe sequences collide), six pages stored in two rounds, then
+/// every subset of them cleared (64 cases; cleared buckets become tombstones in the middle of other
+/// pages' probe sequences), the table re-opened from disk.  [C16/C05] After each: every page still
+/// stored is found by PageLoader::{start_load, probe} + PageLoad::try_complete in the bucket recorded
+/// for it and with its own content; every cleared page and two never-stored pages are reported absent.
+#[cfg(test)]
+#[test]
+fn native_enum_probe_reaches_exactly_the_stored_pages() {
+    use crate::io::{PagePool, PAGE_SIZE};
+    use crate::page_cache::PageMut;
+    use crate::page_diff::PageDiff;
+    use crate::store::{BucketInfo, DirtyPage};
+    use nomt_core::page_id::{ChildPageIndex, ROOT_PAGE_ID};
+    const BUCKETS: u32 = 8;
+    let seed = [0x21u8; 16];
+    let pid = |i: u8| ROOT_PAGE_ID.child_page_id(ChildPageIndex::new(i).unwrap()).unwrap();
+    let pool = PagePool::new();
+    let io_pool = crate::io::start_io_pool(1, pool.clone());
+    let mk = |id: &PageId, fill: u8| {
+        let mut p = PageMut::pristine_empty(&pool, id);
+        let mut diff = PageDiff::default();
+        for n in [0usize, 3] { p.set_node(n, [fill; 32]); diff.set_changed(n); }
+        DirtyPage { page: p.freeze(), diff, bucket: BucketInfo::FreshWithNoDependents }
+    };
+    let load = |db: &DB, id: &PageId| -> Option<(crate::io::FatPage, BucketIndex)> {
+        let loader = PageLoader::new(db);
+        let io = io_pool.make_handle();
+        let mut l = loader.start_load(id.clone());
+        loop {
+            if !loader.probe(&mut l, &io, 0) { return None; }
+            let c = io.recv().unwrap();
+            c.result.unwrap();
+            if let Some(r) = l.try_complete(c.command.kind.unwrap_buf()) { return Some(r); }
+        }
+    };
+    for mask in 0u32..64 {
+        let dir = tempfile::tempdir().unwrap();
+        ht_file::create(dir.path().to_path_buf(), BUCKETS, false).unwrap();
+        let db = native_open_db(dir.path(), 0, BUCKETS, seed);
+        let mut wal = WalBlobBuilder::new().unwrap();
+        let mut where_is: Vec<(PageId, crate::page_cache::Page, BucketIndex)> = Vec::new();
+        for round in 0..2u8 {
+            let batch: Vec<(PageId, DirtyPage)> = (0..3u8).map(|i| { let id = pid(round * 3 + i + 1); (id.clone(), mk(&id, 0x10 * (round * 3 + i + 1))) }).collect();
+            let (ht_pages, cache) = db.prepare_sync(1 + round as u32, &pool, batch, &mut wal).ok().unwrap();
+            native_apply_ht_pages(&dir.path().join("ht"), &ht_pages);
+            for (id, upd) in cache { let (page, b) = upd.unwrap(); where_is.push((id, page, b)); }
+        }
+        let what = format!("cleared set {:#08b}", mask);
+        let cleared: Vec<(PageId, DirtyPage)> = where_is.iter().enumerate().filter(|(i, _)| mask & (1 << i) != 0).map(|(_, (id, page, b))| {
+            let mut diff = PageDiff::default();
+            diff.set_cleared();
+            (id.clone(), DirtyPage { page: page.clone(), diff, bucket: BucketInfo::Known(*b) })
+        }).collect();
+        if !cleared.is_empty() {
+            let (ht_pages, _) = db.prepare_sync(3, &pool, cleared, &mut wal).ok().unwrap();
+            native_apply_ht_pages(&dir.path().join("ht"), &ht_pages);
+        }
+        drop(db);
+        // cold: from the files alone
+        let db = native_open_db(dir.path(), 3, BUCKETS, seed);
+        for (i, (id, page, b)) in where_is.iter().enumerate() {
+            let got = load(&db, id);
+            if mask & (1 << i) != 0 {
+                assert!(got.is_none(), "a cleared page is still found by its probe sequence ({}, page {})", what, i);
+            } else {
+                let (data, bucket) = got.unwrap_or_else(|| panic!("a stored page is not reachable through its probe sequence ({}, page {} in bucket {})", what, i, b.0));
+                assert!(bucket.0 == b.0, "a stored page is found in another bucket than recorded ({}, page {})", what, i);
+                assert!(data[..PAGE_SIZE] == page.page_data()[..PAGE_SIZE], "a stored page is read back with other content ({}, page {})", what, i);
+            }
+        }
+        for never in [pid(40), pid(63)] {
+            assert!(load(&db, &never).is_none(), "a page that was never stored is found ({})", what);
+        }
+        assert_eq!(db.utilization().occupied, 6 - mask.count_ones() as usize, "occupancy after reopen ({})", what);
+    }
 }
 
 #[cfg(test)]
